@@ -24,6 +24,12 @@ CHECKS = {
  "C07": ("DESIGN.md 5.7",
   "Theorems: every trace of a connection, for every input and every handler script, starts with its registration and ends with deregistration and close (panic paths included: a panic is an event contained in the connection); a panicking request writes nothing and changes no server-wide state; user commands cannot change server state; formerly fatal inputs evaluate to error replies. Tie: hostile streams x wild handler results through the hook, oracle = no panic escapes, loop returns, registry empty; regenerated fact: recover barrier present in receive.",
   "process-level effects (fatal runtime errors that are not panics, OS limits) are not modelled; partial at process level"),
+ "C08": ("DESIGN.md 5.8",
+  "Theorems (unbounded): for any number of connections, any requests, any global interleaving: every handler call on connection i is preceded in the schedule by connection i's own AUTH whose decoded credentials are exactly (no user, configured password) (C08_gate, invariant over the interleaved system); a step of one connection leaves every other connection's state untouched; AUTH with any other credentials (arbitrary byte strings, missing, null) => error and authorization unchanged; exact AUTH always succeeds. Tie: dictionary around the password x one/two-argument forms x 1..3 connections x all interleavings (bounded) + random histories.",
+  "no TLS certificate rule (C09); the clear-text authenticator is installed by the harness the way Server.Start does"),
+ "C13": ("DESIGN.md 5.13",
+  "Theorems (unbounded): for any number of connections, any requests, any interleaving: the connection state (database, authorization, user) seen by every handler call on connection i equals the fold of connStep over connection i's own earlier requests — independent of the schedule, other connections, handler answers and the configuration table; defaults; user commands never change it; SELECT changes the database only on success. Tie: all interleavings of two connections (bounded) + random histories over 2..8 connections, handler double probing db, authorization and per-connection user data.",
+  "requests are released one at a time in the tie; truly concurrent execution is C14/C16's workload"),
  "C10": ("DESIGN.md 5.10",
   "Theorems (unbounded): for all 28 commands of the positional grammar every ill-formed variant (required position omitted, null bulk, non-integer/fractional/overflowing token, non-float, empty list, null in list) is rejected with zero handler calls and unchanged state (table-wide); dangling key/value and score/member halves; SET option conflicts anywhere after any admissible prefix; bad/non-positive/missing expiry; SETEX; ZRANGE fractional index; STRLEN without key. Tie: systematic enumeration of mutation classes through the hook, oracle = no call, error reply, following PING answered.",
   "option grammars of SCAN/ZRANGEBYSCORE LIMIT are covered by the tie only"),
